@@ -132,7 +132,7 @@ class contentsSet(GenericEquality):
             if f(x):
                 yield x.location
             else:
-                yield x
+                yield normpath(x)
 
     @staticmethod
     def _ensure_fsbase(iterable):
@@ -143,7 +143,7 @@ class contentsSet(GenericEquality):
             yield x
 
     def difference(self, other):
-        if not hasattr(other, "__contains__"):
+        if not isinstance(other, contentsSet):
             other = set(self._convert_loc(other))
         return contentsSet(
             (x for x in self if x.location not in other), mutable=self.mutable
@@ -164,7 +164,7 @@ class contentsSet(GenericEquality):
     def intersection_update(self, other):
         if not self.mutable:
             raise TypeError(f"immutable type {self!r}")
-        if not hasattr(other, "__contains__"):
+        if not isinstance(other, contentsSet):
             other = set(self._convert_loc(other))
 
         l = [x for x in self if x.location not in other]
@@ -172,17 +172,17 @@ class contentsSet(GenericEquality):
             self.remove(x)
 
     def issubset(self, other):
-        if not hasattr(other, "__contains__"):
+        if not isinstance(other, contentsSet):
             other = set(self._convert_loc(other))
         return all(x in other for x in self._dict)
 
     def issuperset(self, other):
-        if not hasattr(other, "__contains__"):
+        if not isinstance(other, contentsSet):
             other = set(self._convert_loc(other))
         return all(x in self for x in other)
 
     def isdisjoint(self, other):
-        if not hasattr(other, "__contains__"):
+        if not isinstance(other, contentsSet):
             other = set(self._convert_loc(other))
         return not any(x in other for x in self._dict)
 
@@ -207,7 +207,7 @@ class contentsSet(GenericEquality):
     def symmetric_difference_update(self, other):
         if not self.mutable:
             raise TypeError(f"immutable type {self!r}")
-        if not hasattr(other, "__contains__"):
+        if not isinstance(other, contentsSet):
             other = contentsSet(self._ensure_fsbase(other))
         l = []
         for x in self:
